@@ -494,3 +494,34 @@ func CoincidenceExps(lo, hi int64, tol float64) []int64 {
 	}
 	return out
 }
+
+// KeptBoundary draws a context and an operand such that the digits kept by a
+// rounding to the context's precision are exactly a boundary value (2^k-1,
+// 2^k, 2^k+1 for the word sizes, 10^k-1, 10^k) and the discarded tail is a
+// tie, a near-tie, all nines or random: x = B*10^j + tail, Precision =
+// digits(B). j is returned for Quantize-style use (target exponent x.E + j).
+func KeptBoundary(r *rng.R) (dec.Ctx, dec.D, int64) {
+	var b *big.Int
+	if r.Chance(1, 4) {
+		b = new(big.Int).Set(dec.Pow10(int64(1 + r.Intn(40))))
+		if r.Bool() {
+			b.Sub(b, big.NewInt(1))
+		}
+	} else {
+		k := []uint{31, 32, 53, 63, 64, 65, 127, 128, 129}[r.Intn(9)]
+		b = new(big.Int).Lsh(big.NewInt(1), k)
+		b.Add(b, big.NewInt(r.Range(-2, 1)))
+	}
+	j := int64(1 + r.Intn(25))
+	tail, _ := new(big.Int).SetString(TieDigits(r, 1, j)[1:], 10)
+	if tail == nil || r.Chance(1, 4) {
+		tail, _ = new(big.Int).SetString(Digits(r, j), 10)
+		tail.Mod(tail, dec.Pow10(j))
+	}
+	c := new(big.Int).Mul(b, dec.Pow10(j))
+	c.Add(c, tail)
+	p := dec.NumDigits(b)
+	ctx := ContextP(r, p)
+	e := r.Range(-30, 10)
+	return ctx, dec.D{Form: dec.Finite, Neg: r.Bool(), C: c, E: e}, j
+}
